@@ -68,7 +68,7 @@ CLAIMED["C05"] = dict(
          "mtime rule, option switches, single-file filter): the rule per row stated outright; check on the generating tree reports nothing for "
          "every option set; after arbitrary mutations the reported paths (= errors file) are exactly the recorded files changed or removed, "
          "each option silencing its own attribute only - for every deterministic hash pair, under the explicit hypothesis that a changed "
-         "content does not collide under both hashes. Tied to /repo by real generate/mutate/check runs with csv-hostile names, relocated roots.",
+         "content does not collide under both hashes. Tied to /repo by real generate/mutate/check runs with csv-hostile names, relocated roots. csv layer (model of csv.writer/reader/DictReader with the tools' dialect and the repo's _csv_writer, tied to Python's csv by correspondence): every row of arbitrary strings is read back exactly (C05_csv_roundtrip), a header plus rows of as many fields are read back by DictReader under their field names (C05_db_roundtrip); C05_csv_cr_witness is the regression witness of the repaired carriage-return defect.",
     design="§6 C05", technique="Lean 4 proof (decision logic over list models) + model/implementation correspondence on real trees",
     note="Trusted: Lean kernel and standard axioms; model validated by sampling; hashlib as a parameter with an explicit no-collision "
          "hypothesis; csv layer exercised with hostile names, not modelled; mtime rounding supplied by the harness.")
@@ -77,7 +77,7 @@ CLAIMED["C16"] = dict(
          "arbitrary histories of add/delete/update ops: remove drops only rows of missing files and keeps order; append keeps the old "
          "database as a prefix and adds each absent file once; for every admissible history a final update -a -r yields exactly the rows "
          "(path, hashes, size, ext) of a fresh generation, each once (induction over the history with a consistency invariant); the "
-         "admissibility side condition is shown necessary by a kernel-checked witness. Tied to /repo by real step-by-step histories.",
+         "admissibility side condition is shown necessary by a kernel-checked witness. Tied to /repo by real step-by-step histories. csv layer: C05_csv_roundtrip, C05_db_roundtrip, C16_csv_append (appending rows = writing them all at once).",
     design="§6 C16", technique="Lean 4 proof (invariant by induction over operation histories) + model/implementation correspondence on real histories",
     note="Trusted: Lean kernel and standard axioms; model validated by sampling; admissibility hypothesis (no re-creation with other content "
          "while the stale row survives) is forced by the property's own clause; csv/os layers exercised not modelled.")
@@ -85,7 +85,7 @@ CLAIMED["C17"] = dict(
     text="Kernel-checked theorems over a model of --filescraping_recovery (md5/sha1 indexes with last-row-wins, recognition rule, last write "
          "wins): for every scraped list of contents (names/nesting are never read, so every renaming is covered) the output holds, at each "
          "recorded path whose content was found, exactly that content with the recorded mtime, and nothing for unknown/damaged files; complete "
-         "scrape => original tree. Under distinct recorded contents and no md5/sha1 collision (explicit). Tied to /repo by real recoveries.",
+         "scrape => original tree. Under distinct recorded contents and no md5/sha1 collision (explicit). Tied to /repo by real recoveries. csv layer: C05_csv_roundtrip, C05_db_roundtrip (the database is read back exactly whatever characters the recorded paths hold).",
     design="§6 C17", technique="Lean 4 proof (list/index reasoning) + model/implementation correspondence on real scraped folders",
     note="Trusted: Lean kernel and standard axioms; model validated by sampling; no-collision hypothesis explicit; copy2/utime/makedirs exercised.")
 
@@ -113,7 +113,7 @@ CLAIMED["C02"] = dict(
          "shifted by the pad (padding never an erasure); under CONTRACT W (decoder returns the codeword within capacity - stated, proved "
          "satisfiable via uniqueness of the codeword within capacity, validated on recorded library calls each run, not proved of the "
          "libraries) decode returns exactly the original message and parity for e <= floor((n-k)/2) and for 2e+f <= n-k with erasures, any "
-         "per-call k. Facade checked at both interfaces against recorded library calls.",
+         "per-call k. Facade checked at both interfaces against recorded library calls. For an ARBITRARY decoder (no contract): a successful decode that consulted the library made corrections within the capacity of the code (C02_decode_within_radius, C02_decode_full_block_within_radius; the guard repaired in c2e423c).",
     design="§4, §5.3, §6 C02, §7 F19", technique="Lean 4 + Mathlib proof (facade refinement, decoding uniqueness) under an explicit decoder contract + boundary-refinement correspondence",
     note="Trusted: as C11 plus contract W for reedsolo/unireedsolomon decoders (about 600 lines of third-party Berlekamp-Massey/Chien/Forney "
          "code, modelled as a parameter); W is refuted by the dependency for codecs 1/2 with erasures on rare patterns: known finding F19.")
@@ -172,7 +172,7 @@ CLAIMED["C09"] = dict(
          "length (one or several intra blocks), both tools, every codec record whose fresh parity checks; under the per-block premise that "
          "contract W supplies for <= floor(parity/2) wrong symbols per intra block the exact field is recovered and reported corrected. "
          "Tied to /repo by comparing field splitting (also on damaged/garbage entries), size text, lenient int(), intra generation and intra "
-         "correction with the real functions, plus end-to-end runs with metadata damaged within the intra bound.",
+         "correction with the real functions, plus end-to-end runs with metadata damaged within the intra bound. Premises from the facade under contract W: C09_intra_block_premise_A/B; run level: C09_run_metadata_within_capacity (metadata damaged within the intra capacity, no delimiter spelled: the entry is processed exactly as with pristine metadata); non-vacuity: pristine_metaWithinCapacity.",
     design="§6 C09", technique="Lean 4 proof (string search/slice reasoning, induction over intra blocks) + function-level and end-to-end correspondence",
     note="Trusted: Lean kernel and standard axioms; model validated by sampling; per-block premises = C11_accepts / C02_decode_exact_errors under "
          "contract W; names ending with a delimiter prefix or outside latin-1 are the format's limits (F15, F14); unireedsolomon within-capacity "
@@ -183,7 +183,7 @@ CLAIMED["C15"] = dict(
          "the pristine one outside the recorded marker spans (markers overwritten by ARBITRARY bytes) and every index block decodes to its "
          "pristine 9 info bytes (contract W for up to 9 corrupted bytes, code (27,9)), the pass returns exactly the pristine file; unusable "
          "blocks (decoder fails or re-check fails, truncated) are skipped and the result is that of the usable blocks alone. Tied to /repo by "
-         "regenerating real ecc/.idx files from their parts and replaying recorded check/decode calls of real recoveries.",
+         "regenerating real ecc/.idx files from their parts and replaying recorded check/decode calls of real recoveries. Chain with byte-level hypotheses only: C15_chain_A/B (index file damaged in place with at most 9 wrong bytes per 27-byte block, all markers of the ecc file overwritten, facade under contract W: the pristine ecc file is returned); the whole index file incl. parities is regenerated by the model (genIdxFile) and compared byte for byte each run.",
     design="§6 C15", technique="Lean 4 proof (offset arithmetic over the entry format, fold invariant of the recovery pass) + correspondence on real recoveries",
     note="Trusted: Lean kernel and standard axioms; model validated by sampling; contract W for the index code; a block beyond capacity may be "
          "mis-corrected into another valid record (then applied or rejected by the sanity check): 'skipped' is proved for the tool's own "
